@@ -89,6 +89,7 @@ def run_with_fault(cfg, fault, procs=1, mp=False):
 def run(ctx):
     from fast_ticc import front_end
     ctx.proof_layer(allowed_axioms=(), coq_deps=["Corr/RunMainLoop"])
+    core.note_drift(ctx, ANCHORS)
     cov = core.LineCoverage()
     replay_lits, meta = [], []
     hist = {"faults": 0, "propagated": 0, "pool_modes": {}}
